@@ -83,9 +83,17 @@ func (content Content) Get(mime string) *MediaType {
 		// string for later wildcard searches.
 		i = len(mime)
 	}
-	mime = mime[:i]
+	// (optional white space may stand before the ';')
+	mime = strings.TrimSpace(mime[:i])
 	if v := content[mime]; v != nil {
 		return v
+	}
+	// Type and subtype are case-insensitive (RFC 7231, section 3.1.1.1).
+	if lower := strings.ToLower(mime); lower != mime {
+		mime = lower
+		if v := content[mime]; v != nil {
+			return v
+		}
 	}
 	// If the x/y pattern has no specific match then we
 	// try the x/* pattern.
